@@ -1370,9 +1370,22 @@ class SVG:
                     # unlikely the url target isn't a gradient but I'm not the police
                     continue
                 used_gradient_ids.add(el.attrib["id"])
+        removed = False
         for grad in self._select_gradients():
             if grad.attrib.get("id") not in used_gradient_ids:
                 _safe_remove(grad)
+                removed = True
+        if removed:
+            # where _add_to_defs put the others depended on the ones just dropped;
+            # settle them where converting the result again puts them, otherwise
+            # a second conversion reorders defs
+            for defs in self.xpath("//svg:defs"):
+                children = list(defs)
+                if all("id" in el.attrib for el in children):
+                    for el in children:
+                        defs.remove(el)
+                    for el in reversed(children):
+                        self._add_to_defs(defs, el)
 
     def checkpicosvg(self, allow_text=False, drop_unsupported=False):
         """Check for nano violations, return xpaths to bad elements.
